@@ -19,7 +19,7 @@ import (
 func init() {
 	register("C07", Meta{
 		Explanation: "Cross-artefact agreement of the three checkpoint digests (necessary conditions of 'sign-bytes agree with the contract'): (type-lists) for the signer-set, batch and logic-call digests the ordered ABI type list agrees three ways – the arguments of the contract's abi.encode (types resolved from parameters, state variables, LogicCallArgs fields and 32-byte literals), the inputs of the Go ABI JSON constant and method that GetCheckpoint packs with, and the static Go types of the packed argument slice; (field-map) position k of each Go argument list derives from the hub field that corresponds to the contract argument at position k (frozen correspondence table), array arguments are made with the length of the source list and filled at every index of a full range over it (no filtering, no reordering), fixed bytes32 arguments are left-aligned copies; (salts) the Go method-name salts right-padded to 32 bytes equal the hex literals of Hub2.sol; (pure) every return of a GetCheckpoint method is the pack helper's result for that call and no code it reaches writes package-level state (no memoised digests); (pack) the pack helper hashes Pack(...)[4:] with Keccak-256; (eip191) the EIP-191 prefix string is byte-identical in the Go signer, the Go verifier and the contract's verifySig (and in keys-generator), signer and verifier both hash prefix‖digest with Keccak-256, and V in {27,28} is normalised before recovery.",
-		NotDecided: []string{"that go-ethereum abi.Pack and solc abi.encode implement the same ABI for equal type lists (trusted)", "that a produced signature verifies for the signer's address and no other (a fact about secp256k1)", "numeric ranges (uint64 nonces cast through int64)"},
+		NotDecided:  []string{"that go-ethereum abi.Pack and solc abi.encode implement the same ABI for equal type lists (trusted)", "that a produced signature verifies for the signer's address and no other (a fact about secp256k1)", "numeric ranges (uint64 nonces cast through int64)"},
 		Assumptions: append(append([]string{}, commonAssumptions...), "go-ethereum abi.Pack and solc abi.encode implement the same ABI specification", "Keccak-256 is collision resistant", "Hub2.sol is read by the purpose-built reader in sa/sol (validated by requiring the expected functions and abi.encode sites)"),
 	}, checkC07)
 }
